@@ -278,6 +278,16 @@ func (p *parser) unary() Expr {
 		p.next()
 		return &EUnary{Op: t.s, X: p.unary()}
 	}
+	if t.k == "op" && t.s == "&" {
+		// &pkg.Global / &Global: the address of a package-level variable
+		p.next()
+		x := p.postfix(p.primary())
+		name, ok := dotted(x)
+		if !ok {
+			p.fail("& needs a (qualified) package variable")
+		}
+		return &EIdent{Name: "&" + name}
+	}
 	return p.postfix(p.primary())
 }
 
